@@ -312,6 +312,10 @@ fn run() {
         "C09" | "C10" | "C11" | "C13" => {
             updrun::run(&mut report, replay.as_deref());
             cmd::run(&mut report);
+            if prop == "C11" {
+                // registry histories: what gets recorded as an unpublished link
+                c08::run(&mut report);
+            }
         }
         "C07" => {
             imports::run(&mut report);
